@@ -254,7 +254,7 @@ def cross_process_determinism(model):
     return len(set(texts)) == 1
 
 
-N = {"quick": 30, "thorough": 1500}.get(a.tier, 60)
+N = {"quick": 30, "thorough": 1000}.get(a.tier, 60)
 for m in scripted()[-2:]:
     ok = cross_process_determinism(m)
     rep.case((m["uid"], "cross-process"))
